@@ -1,37 +1,106 @@
-(* all ordinals of 0001-01-01 .. 9999-12-31, from the chunks *)
+(* all ordinals of 0001-01-01 .. 9999-12-31: one 400 year cycle is verified exhaustively by computation,
+   the other 24 follow because every function involved is invariant under a shift by 146097 days / 400 years *)
 From Coq Require Import Lia.
 From EdxmlVerif Require Import Base.Prelude Valid.Normalize Valid.Calendar.
-From EdxmlVerif Require Valid.Cal.Chunk00.
-From EdxmlVerif Require Valid.Cal.Chunk01.
-From EdxmlVerif Require Valid.Cal.Chunk02.
-From EdxmlVerif Require Valid.Cal.Chunk03.
-From EdxmlVerif Require Valid.Cal.Chunk04.
-From EdxmlVerif Require Valid.Cal.Chunk05.
-From EdxmlVerif Require Valid.Cal.Chunk06.
-From EdxmlVerif Require Valid.Cal.Chunk07.
-From EdxmlVerif Require Valid.Cal.Chunk08.
-From EdxmlVerif Require Valid.Cal.Chunk09.
-From EdxmlVerif Require Valid.Cal.Chunk10.
-From EdxmlVerif Require Valid.Cal.Chunk11.
-From EdxmlVerif Require Valid.Cal.Chunk12.
-From EdxmlVerif Require Valid.Cal.Chunk13.
 Local Open Scope Z_scope.
+
+Definition ord_ok_cycle (r : Z) : bool := ord_ok r && (let '(y, _, _) := civil_of_ordinal r in (y <=? 400) && (days_before_year y <? r)).
+
+Fixpoint check_cycle (k : nat) (lo : Z) (limit : Z) : bool :=
+  match k with
+  | O => if lo <? limit then ord_ok_cycle lo else true
+  | S k' => check_cycle k' lo limit && check_cycle k' (lo + 2 ^ Z.of_nat k') limit
+  end.
+Lemma check_cycle_spec k : forall lo limit, check_cycle k lo limit = true ->
+  forall n, lo <= n < lo + 2 ^ Z.of_nat k -> n < limit -> ord_ok_cycle n = true.
+Proof.
+  induction k as [|k IH]; intros lo limit H n Hn Hl.
+  - cbn in Hn. assert (n = lo) by lia. subst. cbn in H. destruct (lo <? limit) eqn:E; [exact H | lia].
+  - cbn [check_cycle] in H. apply andb_true_iff in H. destruct H as (H1 & H2).
+    rewrite Nat2Z.inj_succ, Z.pow_succ_r in Hn by lia.
+    destruct (Z_lt_le_dec n (lo + 2 ^ Z.of_nat k)); [apply (IH _ _ H1) | apply (IH _ _ H2)]; lia.
+Qed.
+
+Lemma one_cycle_checked : check_cycle 18 1 146098 = true.
+Proof. vm_cast_no_check (eq_refl true). Qed.
+
+Lemma cycle_ok r : 1 <= r <= 146097 -> ord_ok_cycle r = true.
+Proof.
+  intros H. apply (check_cycle_spec 18 1 146098 one_cycle_checked); [|lia].
+  assert (2 ^ Z.of_nat 18 = 262144) by reflexivity. lia.
+Qed.
+
+(* ---- shift invariance ---- *)
+Lemma dby_shift y k : days_before_year (y + 400 * k) = days_before_year y + 146097 * k.
+Proof.
+  unfold days_before_year. replace (y + 400 * k - 1) with (y - 1 + 400 * k) by ring.
+  set (p := y - 1).
+  replace (p + 400 * k) with (p + (100 * k) * 4) at 2 by ring. rewrite Z.div_add by lia.
+  replace (p + 400 * k) with (p + (4 * k) * 100) at 2 by ring. rewrite Z.div_add by lia.
+  replace (p + 400 * k) with (p + k * 400) at 2 by ring. rewrite Z.div_add by lia. ring.
+Qed.
+
+Lemma leap_shift y k : is_leap (y + 400 * k) = is_leap y.
+Proof.
+  unfold is_leap.
+  replace (y + 400 * k) with (y + (100 * k) * 4) at 1 by ring. rewrite Z.mod_add by lia.
+  replace (y + 400 * k) with (y + (4 * k) * 100) at 1 by ring. rewrite Z.mod_add by lia.
+  replace (y + 400 * k) with (y + k * 400) by ring. rewrite Z.mod_add by lia. reflexivity.
+Qed.
+
+Lemma dim_shift y k m : days_in_month (y + 400 * k) m = days_in_month y m.
+Proof. unfold days_in_month. rewrite leap_shift. reflexivity. Qed.
+
+Lemma dbm_shift y k m : days_before_month (y + 400 * k) m = days_before_month y m.
+Proof. unfold days_before_month. rewrite leap_shift. reflexivity. Qed.
+
+Lemma ordinal_shift y k m d : ordinal (y + 400 * k) m d = ordinal y m d + 146097 * k.
+Proof. unfold ordinal. rewrite dby_shift, dbm_shift. ring. Qed.
+
+Lemma year_shift n k : year_of_ordinal (n + 146097 * k) = year_of_ordinal n + 400 * k.
+Proof.
+  unfold year_of_ordinal.
+  replace ((n + 146097 * k - 1) * 400) with ((n - 1) * 400 + (400 * k) * 146097) by ring. rewrite Z.div_add by lia.
+  set (y0 := (n - 1) * 400 / 146097).
+  replace (y0 + 400 * k + 2) with (y0 + 2 + 400 * k) by ring. replace (y0 + 400 * k + 1) with (y0 + 1 + 400 * k) by ring.
+  rewrite !dby_shift.
+  destruct (days_before_year (y0 + 2) + 146097 * k <? n + 146097 * k) eqn:A; destruct (days_before_year (y0 + 2) <? n) eqn:A'; try lia.
+  destruct (days_before_year (y0 + 1) + 146097 * k <? n + 146097 * k) eqn:B; destruct (days_before_year (y0 + 1) <? n) eqn:B'; lia.
+Qed.
+
+Lemma civil_shift n k : civil_of_ordinal (n + 146097 * k) =
+  let '(y, m, d) := civil_of_ordinal n in (y + 400 * k, m, d).
+Proof.
+  unfold civil_of_ordinal. rewrite year_shift, dby_shift.
+  replace (n + 146097 * k - (days_before_year (year_of_ordinal n) + 146097 * k)) with (n - days_before_year (year_of_ordinal n)) by ring.
+  set (y := year_of_ordinal n). set (rest := n - days_before_year y).
+  assert (M : month_of (y + 400 * k) rest = month_of y rest) by (unfold month_of; rewrite !dbm_shift; reflexivity).
+  rewrite M, dbm_shift. reflexivity.
+Qed.
+
 Theorem all_ordinals_ok n : 1 <= n <= 3652059 -> ord_ok n = true.
 Proof.
-  intros H. assert (P : 2 ^ Z.of_nat 18 = 262144) by reflexivity.
-  destruct (Z_lt_le_dec n 262145); [apply (check_range_spec 18 1 3652060 Valid.Cal.Chunk00.chunk); lia|].
-  destruct (Z_lt_le_dec n 524289); [apply (check_range_spec 18 262145 3652060 Valid.Cal.Chunk01.chunk); lia|].
-  destruct (Z_lt_le_dec n 786433); [apply (check_range_spec 18 524289 3652060 Valid.Cal.Chunk02.chunk); lia|].
-  destruct (Z_lt_le_dec n 1048577); [apply (check_range_spec 18 786433 3652060 Valid.Cal.Chunk03.chunk); lia|].
-  destruct (Z_lt_le_dec n 1310721); [apply (check_range_spec 18 1048577 3652060 Valid.Cal.Chunk04.chunk); lia|].
-  destruct (Z_lt_le_dec n 1572865); [apply (check_range_spec 18 1310721 3652060 Valid.Cal.Chunk05.chunk); lia|].
-  destruct (Z_lt_le_dec n 1835009); [apply (check_range_spec 18 1572865 3652060 Valid.Cal.Chunk06.chunk); lia|].
-  destruct (Z_lt_le_dec n 2097153); [apply (check_range_spec 18 1835009 3652060 Valid.Cal.Chunk07.chunk); lia|].
-  destruct (Z_lt_le_dec n 2359297); [apply (check_range_spec 18 2097153 3652060 Valid.Cal.Chunk08.chunk); lia|].
-  destruct (Z_lt_le_dec n 2621441); [apply (check_range_spec 18 2359297 3652060 Valid.Cal.Chunk09.chunk); lia|].
-  destruct (Z_lt_le_dec n 2883585); [apply (check_range_spec 18 2621441 3652060 Valid.Cal.Chunk10.chunk); lia|].
-  destruct (Z_lt_le_dec n 3145729); [apply (check_range_spec 18 2883585 3652060 Valid.Cal.Chunk11.chunk); lia|].
-  destruct (Z_lt_le_dec n 3407873); [apply (check_range_spec 18 3145729 3652060 Valid.Cal.Chunk12.chunk); lia|].
-  destruct (Z_lt_le_dec n 3670017); [apply (check_range_spec 18 3407873 3652060 Valid.Cal.Chunk13.chunk); lia|].
-  lia.
+  intros H.
+  set (k := (n - 1) / 146097). set (r := (n - 1) mod 146097 + 1).
+  assert (E : n = r + 146097 * k) by (unfold r, k; pose proof (Z.div_mod (n - 1) 146097 ltac:(lia)); lia).
+  assert (R : 1 <= r <= 146097) by (unfold r; pose proof (Z.mod_pos_bound (n - 1) 146097 ltac:(lia)); lia).
+  assert (K : 0 <= k <= 24).
+  { unfold k. split; [apply Z.div_pos; lia|]. assert ((n - 1) / 146097 < 25) by (apply Z.div_lt_upper_bound; lia). lia. }
+  pose proof (cycle_ok r R) as C. unfold ord_ok_cycle, ord_ok in C.
+  unfold ord_ok. rewrite E, civil_shift.
+  destruct (civil_of_ordinal r) as ((y, m), d).
+  apply andb_true_iff in C. destruct C as (C & Y). apply andb_true_iff in C. destruct C as (V & O).
+  apply andb_true_iff in Y. destruct Y as (Y & DB). apply Z.leb_le in Y. apply Z.ltb_lt in DB. apply Z.eqb_eq in O.
+  rewrite ordinal_shift, O.
+  assert (Z.eqb (r + 146097 * k) (r + 146097 * k) = true) as -> by (apply Z.eqb_refl).
+  rewrite andb_true_r.
+  unfold valid_date in *. rewrite dim_shift.
+  repeat (apply andb_true_iff in V; destruct V as (V & ?)).
+  (* the year stays below 10000: the last cycle ends with year 10000, whose days lie beyond 3652059 *)
+  assert (YB : y + 400 * k <= 9999).
+  { destruct (Z.eq_dec k 24) as [->|NK]; [|lia].
+    destruct (Z.eq_dec y 400) as [->|NY]; [|lia].
+    exfalso. assert (days_before_year 400 = 145731) by reflexivity. lia. }
+  apply Z.leb_le in V.
+  repeat (apply andb_true_iff; split); try assumption; apply Z.leb_le; lia.
 Qed.
